@@ -71,6 +71,8 @@ pub struct TState {
     /// seeded short reads on jubako's reader-side streams (per mille), and their PRNG
     pub short_read_pm: u64,
     pub short_rng: Option<simcore::prng::Rng>,
+    /// output I/O fault points (C09 T pass): consulted at every output operation of the creators
+    pub io_handler: Option<Box<dyn FnMut(&verif_rt::io::IoOp) -> verif_rt::io::IoDecision + Send>>,
 }
 
 pub struct THooks {
@@ -129,6 +131,13 @@ impl verif_rt::Hooks for THooks {
             n
         }
     }
+    fn io(&self, op: &verif_rt::io::IoOp) -> verif_rt::io::IoDecision {
+        let mut st = self.st.lock().unwrap();
+        match st.io_handler.as_mut() {
+            Some(h) => h(op),
+            None => verif_rt::io::IoDecision::Proceed,
+        }
+    }
 }
 
 static CURRENT: Mutex<Option<Arc<THooks>>> = Mutex::new(None);
@@ -158,12 +167,17 @@ impl THooks {
         st.addr_ids.clear();
         st.next_instance = 0;
         st.record_events = record_events;
+        st.io_handler = None;
         // the pseudo-knob "stream_short_read_pm" switches reader-side short reads on
         st.short_read_pm = st.knobs.get("stream_short_read_pm").copied().unwrap_or(0);
         st.short_rng = Some(simcore::prng::Rng::derive(st.knobs.get("stream_short_read_seed").copied().unwrap_or(0), "short-reads", 0));
     }
+    pub fn set_io_handler(&self, h: Option<Box<dyn FnMut(&verif_rt::io::IoOp) -> verif_rt::io::IoDecision + Send>>) {
+        self.st.lock().unwrap().io_handler = h;
+    }
     pub fn take(&self) -> (Vec<Event>, BTreeMap<&'static str, u64>) {
         let mut st = self.st.lock().unwrap();
+        st.io_handler = None;
         (std::mem::take(&mut st.events), std::mem::take(&mut st.counts))
     }
 }
